@@ -75,6 +75,7 @@ type lockAnalysis struct {
 	calls    []lockCall
 	dynHeld  []lockSet       // held sets at `cmd.Func(...)`
 	dynFuncs map[string]bool // functions stored in the command table
+	seq      map[string][]string // function -> lock operations in source order
 	exported map[string]bool
 	decls    map[string]bool
 }
@@ -266,6 +267,7 @@ func (a *lockAnalysis) walkBlock(p *packages.Package, fn string, stmts []ast.Stm
 		case *ast.ExprStmt:
 			if call, ok := v.X.(*ast.CallExpr); ok {
 				if name, op := a.lockOp(p, call); name != "" {
+					a.seq[fn] = append(a.seq[fn], name+"."+op)
 					switch op {
 					case "Lock":
 						held[name+":W"] = true
@@ -281,7 +283,8 @@ func (a *lockAnalysis) walkBlock(p *packages.Package, fn string, stmts []ast.Stm
 			}
 			a.scanExpr(p, fn, v, held, writes)
 		case *ast.DeferStmt:
-			if name, _ := a.lockOp(p, v.Call); name != "" {
+			if name, op := a.lockOp(p, v.Call); name != "" {
+				a.seq[fn] = append(a.seq[fn], "defer "+name+"."+op)
 				continue // released at function exit
 			}
 			a.scanExpr(p, fn, v.Call, held, writes)
@@ -369,7 +372,7 @@ func (a *lockAnalysis) walkBlock(p *packages.Package, fn string, stmts []ast.Stm
 }
 
 func (x *extractor) genLocks() {
-	a := &lockAnalysis{x: x, tracked: map[string]bool{}, dynFuncs: map[string]bool{}, exported: map[string]bool{}, decls: map[string]bool{}}
+	a := &lockAnalysis{x: x, tracked: map[string]bool{}, dynFuncs: map[string]bool{}, exported: map[string]bool{}, decls: map[string]bool{}, seq: map[string][]string{}}
 	for _, t := range []string{"internal/ircserver.IRCServer", "internal/ircserver.Session", "internal/ircserver.channel", "internal/outputstream.OutputStream",
 		"internal/raftstore.LevelDBStore", "internal/api.HTTP", ".FSM"} {
 		i := strings.LastIndex(t, ".")
@@ -444,6 +447,7 @@ func (x *extractor) genLocks() {
 	// pkginit accesses are not interesting (single-threaded start-up)
 	a.accesses = nil
 	a.calls = nil
+	a.seq = map[string][]string{}
 	for _, b := range bodies {
 		a.walkBlock(b.p, b.key, b.body.List, lockSet{}, writeTargets(b.body))
 	}
@@ -600,6 +604,21 @@ func (x *extractor) genLocks() {
 	for i, k := range en {
 		fmt.Fprintf(&b, "  (%s, [%s])", leanStr(k), strings.Join(mapStr(entry[k].list(), leanStr), ", "))
 		if i+1 < len(en) {
+			b.WriteString(",")
+		}
+		b.WriteString("\n")
+	}
+	b.WriteString("]\n\n/-- lock operations of every function of internal/outputstream, in source order (the lock regions are the atomic steps of the C08 model) -/\ndef streamRegions : List (String × List String) := [\n")
+	var sk []string
+	for k := range a.seq {
+		if strings.HasPrefix(k, "internal/outputstream:") {
+			sk = append(sk, k)
+		}
+	}
+	sort.Strings(sk)
+	for i, k := range sk {
+		fmt.Fprintf(&b, "  (%s, [%s])", leanStr(k), strings.Join(mapStr(a.seq[k], leanStr), ", "))
+		if i+1 < len(sk) {
 			b.WriteString(",")
 		}
 		b.WriteString("\n")
